@@ -13,9 +13,9 @@
                      character-data spec; every child element is StrictValid itself;
      shortname_ok    if `ty` is named in `ver` there is a SHORT-NAME child.
    cdata_valid: enum item listed and in version; pattern string within max_length, accepted by the validator, UTF-8;
-   numbers are numbers by construction of the tree.  NOT in the predicate (see the `holes` in StrictValid.v):
-   an element that must carry text has exactly one text item; max_length / entity well-formedness of plain strings
-   (they are properties of the bytes before unescaping, not of the tree). *)
+   plain string within max_length (after unescaping); numbers are numbers by construction of the tree.  NOT in the predicate (see the `holes` in StrictValid.v):
+   an element that must carry text has exactly one text item; entity well-formedness of plain strings
+   (a property of the bytes before unescaping, not of the tree). *)
 From AV Require Import Base.Bytes Base.Outcome Base.Utf8 Hash.HashModel Spec.SpecOps Xml.Lexer Xml.Parser.
 Open Scope list_scope.
 Open Scope N_scope.
@@ -36,7 +36,7 @@ Inductive cdata_valid : cdspec -> cdata -> Prop :=
 | cv_pattern fn maxlen s :
     opt_len_gt maxlen s = false -> check_fn fn s = Val true -> utf8_valid s = true ->
     cdata_valid (CPattern fn maxlen) (DString s)
-| cv_string preserve maxlen s : cdata_valid (CString preserve maxlen) (DString s)
+| cv_string preserve maxlen s : opt_len_gt maxlen s = false -> cdata_valid (CString preserve maxlen) (DString s)
 | cv_uint n : cdata_valid CUInt (DUInt n)
 | cv_float b : cdata_valid CFloat (DFloat b).
 
